@@ -111,12 +111,17 @@ type Config struct {
 
 // DefaultConfig is a modest bundle: compile+print well under 50ms.
 func DefaultConfig() Config {
-	return Config{MaxPackages: 3, MaxFilesPerPackage: 3, MaxElements: 4, MaxDeps: 2}
+	return Config{MaxPackages: 3, MaxFilesPerPackage: 3, MaxElements: 3, MaxDeps: 2}
+}
+
+// SmallConfig is for speed-critical loops (not part of the required API).
+func SmallConfig() Config {
+	return Config{MaxPackages: 2, MaxFilesPerPackage: 2, MaxElements: 2, MaxDeps: 1}
 }
 
 // LargeConfig produces bigger files (more elements and fields per element).
 func LargeConfig() Config {
-	return Config{MaxPackages: 3, MaxFilesPerPackage: 3, MaxElements: 9, MaxDeps: 2}
+	return Config{MaxPackages: 3, MaxFilesPerPackage: 3, MaxElements: 5, MaxDeps: 2}
 }
 
 // Bundle is one generated set of sources.
@@ -245,7 +250,7 @@ func Generate(seed uint64, cfg Config) *Bundle {
 	g := &gen{
 		r:     &rng{s: seed ^ 0x6a09e667f3bcc908},
 		cfg:   cfg,
-		large: cfg.MaxElements > 6,
+		large: cfg.MaxElements > 4,
 		b: &Bundle{
 			Files:    map[string]string{},
 			Features: map[string]int{},
